@@ -154,4 +154,36 @@ def skVecNormSq (p : List Rat) (k : Nat) : Rat :=
 /-- Schmidt rank from the coefficients: number of non-zero entries -/
 def supportSize (s : List Rat) : Nat := (s.filter fun x => x != 0).length
 
+/-! ## the dimension argument (`dim` omitted / a single integer / a pair) -/
+
+/-- `int(np.round(np.sqrt(N)))` for a natural number `N`: `⌊√N⌋` when `N ≤ ⌊√N⌋² + ⌊√N⌋` (i.e. `√N < ⌊√N⌋ + 1/2`), else `⌊√N⌋ + 1` -/
+def roundSqrt (N : Nat) : Nat :=
+  let s := Nat.sqrt N
+  if N - s * s ≤ s then s else s + 1
+
+/-- the raw `dim` argument of the library functions -/
+inductive DimArg where
+  /-- `dim=None` -/
+  | omitted
+  /-- `dim=d`, a single integer -/
+  | scalar (d : Nat)
+  /-- `dim=[dA, dB]` (list or array) -/
+  | pair (dA dB : Nat)
+deriving Repr, DecidableEq
+
+/-- mirror of the argument normalisation of `schmidt_rank` (both branches): `None` → `d = round(sqrt(N))` and then, as for an integer `d`,
+    `np.array([d, N / d], dtype=int)` (truncation); a pair is taken as it is.  `none` for `d = 0` (NumPy divides by zero). -/
+def resolveDim (N : Nat) : DimArg → Option (Nat × Nat)
+  | .omitted => let d := roundSqrt N; if d = 0 then none else some (d, N / d)
+  | .scalar d => if d = 0 then none else some (d, N / d)
+  | .pair a b => some (a, b)
+
+/-- `schmidt_rank(psi, dim)` for a vector of length `N` and the raw argument `dim`, mirror -/
+def schmidtRankArg (N : Nat) (arg : DimArg) (ψ : Nat → QI) : Option Nat :=
+  (resolveDim N arg).map fun d => schmidtRankVec d.1 d.2 ψ
+
+/-- `schmidt_rank(rho, dim)` for an `N × N` operator and the raw argument `dim` (1-D forms), mirror -/
+def schmidtRankOpArg (N : Nat) (arg : DimArg) (ρ : Nat → Nat → QI) : Option Nat :=
+  (resolveDim N arg).map fun d => schmidtRankOp d.1 d.2 ρ
+
 end Toq.Entangle
